@@ -11,6 +11,9 @@ pub enum Family {
     Lo,
     Hi,
     Pad,
+    /// byte mode: valid UTF-8 text made of 2-, 3- and 4-byte characters, padded with ASCII to the exact byte
+    /// length (character count < byte count); the other modes: same as Ctr
+    Utf8,
     Seeded(u64),
 }
 
@@ -21,6 +24,7 @@ impl Family {
             Family::Lo => "lo".into(),
             Family::Hi => "hi".into(),
             Family::Pad => "pad".into(),
+            Family::Utf8 => "utf8".into(),
             Family::Seeded(s) => format!("seeded({})", s),
         }
     }
@@ -45,6 +49,22 @@ pub fn content(f: Family, m: usize, len: usize) -> Vec<u8> {
                 _ => [0xEC, 0x11][i % 2],
             })
             .collect(),
+        Family::Utf8 => {
+            if m != 2 {
+                return content(Family::Ctr, m, len);
+            }
+            let chars = ["\u{e9}", "\u{20ac}", "\u{1d11e}", "\u{fc}", "\u{4e2d}"];
+            let mut out: Vec<u8> = Vec::with_capacity(len);
+            let mut i = 0;
+            while out.len() + chars[i % chars.len()].len() <= len {
+                out.extend_from_slice(chars[i % chars.len()].as_bytes());
+                i += 1;
+            }
+            while out.len() < len {
+                out.push(b'x');
+            }
+            out
+        }
         Family::Seeded(seed) => {
             let mut rng = Rng::new(seed ^ ((m as u64) << 32) ^ (len as u64).wrapping_mul(0x9E37));
             (0..len)
@@ -133,8 +153,7 @@ pub fn s_len_tier(f: Family, max_len: usize, thorough: bool) -> Space {
                         mode,
                         ecl: Some(e as u8),
                         version: None,
-                        mask: None,
-                    },
+                        mask: None, order: 0 },
                 });
             }
         }
@@ -161,13 +180,25 @@ pub fn s_cross(thorough: bool) -> Space {
             let max_len = r::cap(40, e, fm) + 40;
             let lens: Vec<usize> = if thorough { (0..=max_len).collect() } else { quick_lengths(fm, e, max_len) };
             for len in lens {
-                for version in [None, Some(40u8)] {
-                    if version.is_some() && !(len % 64 == 0 || len + 2 >= r::cap(40, e, fm)) {
-                        continue;
+                // forced versions: 40, and the gap between the smallest version for the content's own class and the
+                // smallest for the forced mode (first of the gap, last of the gap = one too small, first that fits)
+                let mut versions: Vec<Option<u8>> = vec![None];
+                if len % 64 == 0 || len + 2 >= r::cap(40, e, fm) {
+                    versions.push(Some(40));
+                }
+                if let (Some(nat), Some(need)) = (r::min_version(cm, e, len), r::min_version(fm, e, len)) {
+                    if len % 3 == 0 || len <= 128 {
+                        for v in [nat, need.saturating_sub(1).max(1), need] {
+                            if !versions.contains(&Some(v as u8)) {
+                                versions.push(Some(v as u8));
+                            }
+                        }
                     }
+                }
+                for version in versions {
                     cases.push(Case {
                         input: Input::Fam(Family::Ctr, cm as u8, len as u32),
-                        opts: Opts { mode: Some(fm as u8), ecl: Some(e as u8), version, mask: None },
+                        opts: Opts { mode: Some(fm as u8), ecl: Some(e as u8), version, mask: None, order: (len % 24) as u8 },
                     });
                 }
             }
@@ -176,7 +207,7 @@ pub fn s_cross(thorough: bool) -> Space {
     Space {
         name: format!("S_cross{}", if thorough { "" } else { "/quick" }),
         describe: format!(
-            "content of a denser class under a forced less dense mode: (digits->Alphanumeric, digits->Byte, alphanumeric->Byte) x 4 levels x {} up to 40 beyond the v40 capacity of the forced mode, version automatic (and forced 40 on every 64th length and around capacity)",
+            "content of a denser class under a forced less dense mode: (digits->Alphanumeric, digits->Byte, alphanumeric->Byte) x 4 levels x {} up to 40 beyond the v40 capacity of the forced mode, version automatic, forced 40 on every 64th length and around capacity, and (lengths <= 128 and every third) forced to the first and last version of the gap between the content class's own minimum and the forced mode's minimum and to the first that fits; setter order rotating with the length",
             if thorough { "every length" } else { "lengths 0..=128, all capacity thresholds of the forced mode -1/0/+1, every 7th length" }
         ),
         cases,
@@ -249,7 +280,7 @@ pub fn s_opt(thorough: bool) -> Space {
                                 continue;
                             }
                         }
-                        cases.push(Case::new(p.to_vec(), Opts { mode, ecl, version, mask }));
+                        cases.push(Case::new(p.to_vec(), Opts { mode, ecl, version, mask, order: 0 }));
                     }
                 }
             }
@@ -275,8 +306,7 @@ pub fn s_group(thorough: bool) -> Space {
             mode: Some(m as u8),
             ecl: Some(0),
             version: Some(v as u8),
-            mask: None,
-        };
+            mask: None, order: 0 };
         // numeric: full groups at group index g = 0..4, tails after g full groups
         for g in 0..if full { 4usize } else { 1 } {
             for val in 0..1000usize {
@@ -375,8 +405,7 @@ pub fn s_small(levels: &[Option<u8>], thorough: bool) -> Space {
                     mode: None,
                     ecl,
                     version: None,
-                    mask: None,
-                },
+                    mask: None, order: 0 },
             ));
         }
     }
@@ -398,7 +427,7 @@ pub fn s_small(levels: &[Option<u8>], thorough: bool) -> Space {
 /// escape processing) which neither per-group enumeration nor whole inputs of <= 2 bytes reach.
 pub fn s_pair_ctx(thorough: bool) -> Space {
     let mut cases = vec![];
-    let auto = Opts { mode: None, ecl: None, version: None, mask: None };
+    let auto = Opts { mode: None, ecl: None, version: None, mask: None, order: 0 };
     let base = content(Family::Ctr, 2, 20);
     let positions: &[usize] = if thorough { &[0, 7, 18] } else { &[7, 18] };
     for &p in positions {
@@ -440,6 +469,50 @@ pub fn s_pair_ctx(thorough: bool) -> Space {
     }
 }
 
+/// S_order: every order of the setter calls. For option tuples with all four options forced, with one left
+/// automatic, and with mode + level only: all 24 permutations of (mode, ecl, version, mask); the result must
+/// not depend on the order (judged by the ordinary oracle, which knows nothing about order).
+pub fn s_order(thorough: bool) -> Space {
+    let mut cases = vec![];
+    let payloads: Vec<(Vec<u8>, usize)> = vec![
+        (content(Family::Ctr, 0, 30), 0),
+        (content(Family::Ctr, 0, 60), 0),
+        (content(Family::Ctr, 1, 25), 1),
+        (content(Family::Ctr, 2, 17), 2),
+        (content(Family::Ctr, 0, if thorough { 1000 } else { 200 }), 0),
+    ];
+    for (p, cm) in &payloads {
+        for fm in *cm..3 {
+            for e in [0usize, 2, 3] {
+                let need = match r::min_version(fm, e, p.len()) {
+                    Some(v) => v,
+                    None => continue,
+                };
+                let nat = r::min_version(*cm, e, p.len()).unwrap_or(need);
+                let mut tuples: Vec<Opts> = vec![];
+                for v in [None, Some(nat as u8), Some(need as u8), Some((need + 1).min(40) as u8)] {
+                    for k in [None, Some(5u8)] {
+                        tuples.push(Opts { mode: Some(fm as u8), ecl: Some(e as u8), version: v, mask: k, order: 0 });
+                        tuples.push(Opts { mode: None, ecl: Some(e as u8), version: v, mask: k, order: 0 });
+                    }
+                }
+                tuples.push(Opts { mode: Some(fm as u8), ecl: None, version: None, mask: None, order: 0 });
+                for t in tuples {
+                    for order in 0..24u8 {
+                        cases.push(Case::new(p.clone(), Opts { order, ..t }));
+                    }
+                }
+            }
+        }
+    }
+    Space {
+        name: "S_order".into(),
+        describe: "all 24 orders of the setter calls (mode, ecl, version, mask) x 5 payloads x forced modes at least as wide as the content x levels {L, Q, H} x versions {auto, smallest for the content's own class, smallest for the forced mode, one more} x mask {auto, 5}".into(),
+        cases,
+        exhaustive: true,
+    }
+}
+
 /// S_mask: 160 (v, level) x {ctr, lo} at byte capacity; the caller builds all 8 masks per case
 pub fn s_mask_bases() -> Vec<(usize, usize, Family, Vec<u8>)> {
     let mut out = vec![];
@@ -468,7 +541,7 @@ pub fn s_cap_families(thorough: bool) -> Space {
                     for len in [cap, cap / 2, 1] {
                         cases.push(Case {
                             input: Input::Fam(f, m as u8, len as u32),
-                            opts: Opts { mode: Some(m as u8), ecl: Some(e as u8), version: Some(v as u8), mask: None },
+                            opts: Opts { mode: Some(m as u8), ecl: Some(e as u8), version: Some(v as u8), mask: None, order: 0 },
                         });
                     }
                 }
